@@ -655,7 +655,8 @@ class Pumped:
     last / newly created links.
     """
 
-    def __init__(self, n, extra_links=2, cls="D", maxar=3, none_ends=False):
+    def __init__(self, n, extra_links=2, cls="D", maxar=3, none_ends=False, mini=False):
+        self.mini = mini      # narrower alphabet (hub / late / elsewhere; first and newest link) for deeper runs
         self.n = n
         self.nv = n + 3
         self.nu = 0
@@ -666,7 +667,7 @@ class Pumped:
 
     def describe(self):
         return {"pumped_star": self.n, "extra_links": self.maxl - self.n, "cls": self.cls,
-                "maxar": self.maxar, "none_ends": self.none_ends}
+                "maxar": self.maxar, "none_ends": self.none_ends, "mini": self.mini}
 
     def initial(self):
         w = SWorld(self.nv)
@@ -686,6 +687,8 @@ class Pumped:
         return sorted(ls)
 
     def ops(self, w):
+        if self.mini:
+            return self._mini_ops(w)
         F = self.focus_vertices()
         E = ([None] if self.none_ends else []) + F
         L = self.focus_links(w)
@@ -712,6 +715,24 @@ class Pumped:
                 out.append(("rfl", i, k))
                 out.append(("addv", k, i))
                 out.append(("ulf", k, i))
+        return out
+
+    def _mini_ops(self, w):
+        n = self.n
+        hub, late, other = 0, n + 1, n + 2
+        L = sorted(({0} if n else set()) | set(range(n, len(w.l))))
+        out = []
+        if len(w.l) < self.maxl:
+            out += [("new", self.cls, hub, late), ("new", self.cls, late, hub), ("new", self.cls, hub, hub)]
+        for k in L:
+            for x in (hub, late, other):
+                out.append(("set_v1", k, x))
+                out.append(("set_v2", k, x))
+            for v in (hub, late):
+                out.append(("a2l", v, k))
+                out.append(("rfl", v, k))
+            out.append(("ulf", k, hub))
+        out.append(("unlink", hub, late, False))
         return out
 
     def within_bounds(self, w):
